@@ -1,12 +1,16 @@
 #!/bin/bash
-# usage: try_mutant.sh <patch.diff> <Cxx> [tier]   — applies the patch to /repo, runs the check, reverts.
-P=$1; ID=$2; TIER=${3:-quick}
-cd /repo || exit 9
-if [ -n "$(git status --porcelain)" ]; then echo "repo dirty"; exit 9; fi
-git apply "$P" || { echo "APPLY-FAILED $P"; exit 8; }
-cd /verif
-OUT=$(timeout 3000 ./run_check.sh $ID $TIER 2>&1); RC=$?
-git -C /repo checkout -- . 
+# usage: try_mutant.sh <patch.diff> <Cxx> [tier]
+# Applies the patch to a scratch worktree of /repo (never to /repo itself), runs the check against it
+# (VERIF_REPO/VERIF_BUILD), prints a one-line verdict, removes the worktree.
+export GOFLAGS=-mod=mod GOPROXY=off GOSUMDB=off GOTOOLCHAIN=local
+P=$(readlink -f "$1"); ID=$2; TIER=${3:-quick}
+V=$(cd "$(dirname "$0")/.." && pwd)
+W=$(mktemp -d /tmp/trymut_XXXX); rmdir $W; B=$W.build
+git -C /repo worktree add -f $W HEAD >/dev/null 2>&1 || { echo "worktree failed"; exit 9; }
+trap 'git -C /repo worktree remove --force $W >/dev/null 2>&1; rm -rf $B' EXIT
+(cd $W && git apply "$P") || { echo "APPLY-FAILED $P"; exit 8; }
+OUT=$(cd $V && VERIF_REPO=$W VERIF_BUILD=$B timeout 3000 ./run_check.sh $ID $TIER 2>&1); RC=$?
 NV=$(echo "$OUT" | grep -c '^VIOLATION')
-echo "[$ID $(basename $P)] rc=$RC violations=$NV $(echo "$OUT" | grep -m2 'cause=' | cut -c1-220 | tr '\n' ' ')"
+echo "[$ID $(basename $P)] rc=$RC violations=$NV causes: $(echo "$OUT" | grep 'cause=' | sed 's/^ *cause=//' | cut -d' ' -f1 | sort | uniq -c | tr '\n' ' ')"
+echo "$OUT" | grep -m1 'cause=' | cut -c1-260
 echo "$OUT" | tail -1 | cut -c1-200
